@@ -2224,7 +2224,15 @@ impl Context {
             }
             Expr::Block(b) => {
                 if let Some(block) = b {
-                    self.eval_expr(*block)
+                    // A block is a lexical scope (the type checker treats it as one):
+                    // names bound inside must not stay visible, or shadow outer names,
+                    // after the block.
+                    let mark = self.valenv.0.front().map(|scope| scope.len());
+                    let res = self.eval_expr(*block);
+                    if let (Some(mark), Some(scope)) = (mark, self.valenv.0.front_mut()) {
+                        scope.truncate(mark);
+                    }
+                    res
                 } else {
                     (Arc::new(Value::None), unit!(), vec![])
                 }
